@@ -201,8 +201,8 @@ where
                 pos: Self::DATA_OFFSET,
             });
         }
-        for x in unsafe { this.data().get_unchecked(..this.len()) } {
-            unsafe { T::validate_ptr(x.as_ptr()) }?;
+        for (i, x) in unsafe { this.data().get_unchecked(..this.len()) }.iter().enumerate() {
+            unsafe { T::validate_ptr(x.as_ptr()) }.map_err(|e| e.offset(Self::DATA_OFFSET + i * T::SIZE))?;
         }
         Ok(())
     }
